@@ -757,3 +757,56 @@ pub fn gen_nested_state(t: &mut Tape) -> Scenario {
     }
     sc
 }
+
+/// C01/C10, targeted: a loop whose body reads the loop state behind a shuffle, on several hosts,
+/// with adaptive batching and a pause between rounds longer than the batch delay (so that idle
+/// flushes fall between two rounds) and slow links (so that hosts install the new state at
+/// different times)
+pub fn gen_state_skew(t: &mut Tape) -> Scenario {
+    let mut p = Profile::pipe();
+    p.family = "loop-state-skew";
+    p.small_batches = true;
+    let mut g = Gen::new(t, p);
+    let nh = 2 + g.t.draw(3) as usize;
+    g.layout = Layout::Remote((0..nh).map(|_| 1 + g.t.draw(2) as u64).collect());
+    let n = [5usize, 20, 60, 200][g.t.draw(4) as usize];
+    let s = g.add_source(true, n, 7);
+    let s = if g.t.draw(2) == 1 { g.un(s, UnOp::Shuffle) } else { s };
+    let mut body = vec![Step::Un(0, UnOp::Shuffle)];
+    let mut cur = 1;
+    for _ in 0..g.t.draw(3) {
+        let op = match g.t.draw(3) {
+            0 => UnOp::Map(MapFn::Add(1)),
+            1 => UnOp::Shuffle,
+            _ => UnOp::Gb(GbForm::KeyedMap, AggFn::Sum),
+        };
+        body.push(Step::Un(cur, op));
+        cur += 1;
+    }
+    let d_us = [1_000u64, 5_000, 50_000][g.t.draw(3) as usize];
+    let iterate = g.t.draw(3) == 2;
+    let spec = LoopSpec {
+        iterate,
+        rounds: 2 + g.t.draw(3) as usize,
+        stop_mod: 0,
+        stop_rem: 0,
+        agg: [AggFn::Sum, AggFn::Count, AggFn::Xor][g.t.draw(3) as usize],
+        body,
+        body_out: cur,
+        use_state: true,
+        cond_sleep_us: d_us * [3u64, 10][g.t.draw(2) as usize],
+    };
+    let a = g.attrs[s].take().unwrap();
+    g.steps.push(Step::Loop(s, spec));
+    g.attrs.push(Some(Attr { repl: Repl::One, depth: a.depth, len: 1, keys: 1 }));
+    if iterate {
+        g.attrs.push(Some(Attr { repl: Repl::Unlimited, depth: a.depth, len: a.len * 2, keys: a.keys.max(50) }));
+    }
+    let nb = [1usize, 4, 100, 1024][g.t.draw(4) as usize];
+    let mut sc = g.finish();
+    sc.bm = if d_us == 50_000 && nb == 1024 { Bm::Default } else { Bm::Adaptive(nb, d_us) };
+    for f in ["stall", "weight", "tcp_latency", "exec_cost"] {
+        sc.knobs.rates.entry(f.to_string()).or_insert(150);
+    }
+    sc
+}
